@@ -126,7 +126,7 @@ func (p *Validator) validateBuffer(buf []byte, last bool) error {
 			off += i
 			continue
 		case colonColon:
-			p.mode = valueMap
+			p.mode = commaMap
 			continue
 		case skipChar:
 			continue
